@@ -129,8 +129,8 @@ struct Gen{
   void query(){
     if(r.chance(0.06)){ int e=pick(p_alive); if(e>=0 && g[e].dim==0 && !g[e].mf){ Json& o=add("getmatrix"); o["a"]=e; o["b"]=e; return; } }
     int a=pick(p_usable); if(a<0){ construct(); return; }
-    static const char* q[]={"eq","dot","getcomps","getmatrix","real","imag","transpose","rotate","rotate_b","utransform_m","utransform_v","eigen","prep_evolve","print","rotate_m","weighted"};
-    int k=(int)r.weighted({10,8,8,6,5,5,6,6,5,6,6,5,10,4,5,3});
+    static const char* q[]={"eq","dot","getcomps","getmatrix","real","imag","transpose","rotate","rotate_b","utransform_m","utransform_v","eigen","prep_evolve","print","rotate_m","weighted","dot_expr"};
+    int k=(int)r.weighted({10,8,8,6,5,5,6,6,5,6,6,5,10,4,5,3,5});
     Json& o=add(q[k]); o["a"]=a;
     int b=pick_usable_dim(g[a].dim); if(b<0) b=a;
     if(k==0) b=pick(p_alive);
@@ -182,7 +182,7 @@ struct Gen{
       case 7:{ int a=pick(p_usable); if(a<0){ construct(); return; } int b=pick_usable_otherdim(g[a].dim); if(b<0) return;
                Json& o=add("compound"); o["t"]=a; o["s"]=b; o["sign"]=r.chance(0.5)?"+":"-"; break; }
       case 8:{ int a=pick(p_usable); if(a<0){ construct(); return; } int b=pick_usable_otherdim(g[a].dim); if(b<0) return;
-               Json& o=add("dot"); o["a"]=a; o["b"]=b; break; }
+               Json& o=add(r.chance(0.5)?"dot":"dot_expr"); o["a"]=a; o["b"]=b; o["i"]=(int)r.below(3); break; }
       default:{ int a=pick(p_usable); if(a<0){ construct(); return; } int d; do{ d=r.range(1,7); }while(d==g[a].dim);
                Json& o=add("rotate_m"); o["a"]=a; o["d"]=d; o["vs"]=(long long)r.below(1000); }
     }
